@@ -15,7 +15,7 @@ PER_KIND = ["Rendered", "Identity", "Versions.Carried", "Versions.OneStorage", "
             "Author.NameLimit", "Machinery.Present", "Machinery.Standard", "Machinery.Default"]
 IMMUTABLE = ["Immutable.Group", "Immutable.Kind", "Immutable.Plural", "Immutable.ClaimKind", "Immutable.ClaimPlural"]
 MON_FORMULAS = (["%s.%s" % (f, k) for f in PER_KIND for k in KINDS]
-                + ["Collide.NoCRD", "Collide.Admission.Create", "Collide.Admission.Update"]
+                + ["Collide.NoCRD", "Collide.Admission.Create", "Collide.Admission.Update", "Admission.Terminating.Same"]
                 + IMMUTABLE + [f + ".Admission" for f in IMMUTABLE])
 MODEL_INVARIANTS = ["DInputOK", "DRendered", "DVersions", "DScope", "DOwner", "DAuthor", "DMachinery", "DCollide", "DImmutable"]
 
